@@ -7,7 +7,7 @@
    is every non-bank table. *)
 From stdpp Require Import gmap.
 From RecordUpdate Require Import RecordSet.
-From Coq Require Import ZArith NArith List.
+From Coq Require Import ZArith NArith List Strings.String.
 Require Import Regen.Base.Bytes Regen.Dec.Dec.
 Require Import Regen.Ledger.Types Regen.Ledger.Msgs Regen.Ledger.Orm Regen.Ledger.BaseMsgs
                Regen.Ledger.MarketMsgs Regen.Ledger.Step Regen.Ledger.InvFrame Regen.Ledger.Fees.
